@@ -44,9 +44,9 @@ import (
 // HTTP / file transport) is drawn by the general generator.
 type caseHint struct {
 	family string
-	format string             // source format
-	target string             // target format ("" = any)
-	build  func(c *e2eCase)   // called last: fills c.src (and, for a Turtle target, c.ttl / c.outBase)
+	format string           // source format
+	target string           // target format ("" = any)
+	build  func(c *e2eCase) // called last: fills c.src (and, for a Turtle target, c.ttl / c.outBase)
 }
 
 // writerIRIOf: the IRI fileresource reports for the output of a case (= the encoder base without --out-base)
@@ -467,9 +467,9 @@ var bigSizesThorough = []int{4095, 4096, 4097, 4100, 5000, 8191, 8193, 12500, 16
 // n = total number of anonymous nodes (approximately; at least n).
 func bigDoc(shape string, n int, groups int) []byte {
 	var sb bytes.Buffer
-	per := (n - 1 - groups + groups - 1) / groups
-	if groups == 0 {
-		per = n - 1
+	per := n - 1
+	if groups > 0 {
+		per = (n - 1 - groups + groups - 1) / groups
 	}
 	id := 0
 	next := func() int { id++; return id }
@@ -781,7 +781,7 @@ func bigIso(a, b []rdf.Quad) (iso bool, exact bool) {
 
 // isoQuads: the isomorphism oracle of the end-to-end part — vh.Isomorphic for ordinary documents, bigIso above
 // the threshold.
-func (g *gen) isoQuads(a, b []rdf.Quad) bool {
+func isoQuads(a, b []rdf.Quad) bool {
 	if len(a) <= bigThreshold && len(b) <= bigThreshold {
 		return vh.Isomorphic(a, b)
 	}
